@@ -529,7 +529,7 @@ theorem sdecMsgLoop_evo (env1 env2 : Env) (hE1 : EnvOk env1) (hx : Extends env1 
       | n+1, hn =>
       have hwhole := h
       simp only [wtMsg] at h
-      obtain ⟨hlo, hi, ⟨fd2, hfd2, hwv⟩, hrest⟩ := h
+      obtain ⟨hlo, hi, ⟨fd2, hfd2, _, hwv⟩, hrest⟩ := h
       simp only [rankFields] at hf
       have h1 : rank v < f := by omega
       have h2 : rankFields fs < f := by omega
@@ -642,15 +642,17 @@ theorem dec_evo (env1 env2 : Env) (hE1 : EnvOk env1) (hx : Extends env1 env2) :
       simp only [wt] at h
       obtain ⟨n, tys, rfl, hn, hw⟩ := h
       have hn1 := hx.get_struct hn
-      simp only [StructsStable, restrict, hn1, vsize] at hs
+      simp only [StructsStable, restrict, hn1] at hs
       obtain ⟨hsz, hst⟩ := hs
       simp only [rank] at hf
       have hf' : rankList fs < f := by omega
       simp only [dec, hn1, enc, restrict, decFields_evo env1 env2 hE1 hx fs tys safe f rest hw hst hf', Res.ok_bind]
-      have hle : vsize (.struct (restrictStruct env1 tys fs)) ≤ (encList fs ++ rest).length := by
-        simp [vsize, hsz, length_encList]
+      -- the reader's Size() of what it decoded is the number of bytes the struct occupies
+      rw [hsz]
+      have hle : vsize (.struct fs) ≤ (encList fs ++ rest).length := by
+        simp [vsize, length_encList]
       simp only [hle, if_true, Res.pure_eq]
-      have : vsize (.struct (restrictStruct env1 tys fs)) = (encList fs).length := by simp [vsize, hsz, length_encList]
+      have : vsize (.struct fs) = (encList fs).length := by simp [vsize, length_encList]
       rw [this, List.drop_left]
   | .msg fs, ty, safe, f, rest, h, hs, hf => by
       match f, hf with
@@ -674,10 +676,13 @@ theorem dec_evo (env1 env2 : Env) (hE1 : EnvOk env1) (hx : Extends env1 env2) :
       simp only [dec, hn1, restrict, decMsgBody]
       rw [htake, hbody, readN_append' safe 4 _ _ (by simp)]
       simp only [Res.ok_bind, hloop, List.nil_append, Res.pure_eq, ofLe_leBytes 4 _ (by simpa using hlen)]
-      have hvs : vsize (.msg (restrictFields env1 fds fs)) ≤ Facts.msgHeaderLen + ((encFields fs).length + 1) := by
-        have := vsizeFields_restrict_le env1 fs fds
-        simp [vsize, Facts.msgSizeBase, Facts.msgHeaderLen, length_encFields]; omega
-      have hln : (if safe = true then max (Facts.msgHeaderLen + ((encFields fs).length + 1)) (vsize (.msg (restrictFields env1 fds fs)))
+      have hvs : gsize env1 (.ref n) (.msg (restrictFields env1 fds fs))
+          ≤ Facts.msgHeaderLen + ((encFields fs).length + 1) := by
+        have h1 := gsize_le_vsize env1 (.msg (restrictFields env1 fds fs)) (.ref n)
+        have h2 := vsizeFields_restrict_le env1 fs fds
+        simp only [vsize, Facts.msgSizeBase] at h1
+        simp only [Facts.msgHeaderLen, length_encFields]; omega
+      have hln : (if safe = true then max (Facts.msgHeaderLen + ((encFields fs).length + 1)) (gsize env1 (.ref n) (.msg (restrictFields env1 fds fs)))
           else Facts.msgHeaderLen + ((encFields fs).length + 1)) = Facts.msgHeaderLen + ((encFields fs).length + 1) := by
         cases safe
         · simp
@@ -712,10 +717,12 @@ theorem dec_evo (env1 env2 : Env) (hE1 : EnvOk env1) (hx : Extends env1 env2) :
       rw [htake, hbody, readN_append' safe 4 _ _ (by simp)]
       simp only [Res.ok_bind, toNat_ofNat_lt d hd, hm, dec_evo env1 env2 hE1 hx v (.ref m) safe f rest hw hs hf',
         Res.pure_eq, ofLe_leBytes 4 _ (by simpa using hlen)]
-      have hvs : vsize (.union d (restrict env1 (.ref m) v)) ≤ Facts.unionHeaderLen + (enc v).length := by
-        have := vsize_restrict_le env1 v (.ref m)
-        simp [vsize, Facts.unionSizeBase, Facts.unionHeaderLen, length_enc]; omega
-      have hln : (if safe = true then max (Facts.unionHeaderLen + (enc v).length) (vsize (.union d (restrict env1 (.ref m) v)))
+      have hvs : gsize env1 (.ref n) (.union d (restrict env1 (.ref m) v)) ≤ Facts.unionHeaderLen + (enc v).length := by
+        have h1 := gsize_le_vsize env1 (.union d (restrict env1 (.ref m) v)) (.ref n)
+        have h2 := vsize_restrict_le env1 v (.ref m)
+        simp only [vsize, Facts.unionSizeBase] at h1
+        simp only [Facts.unionHeaderLen, length_enc]; omega
+      have hln : (if safe = true then max (Facts.unionHeaderLen + (enc v).length) (gsize env1 (.ref n) (.union d (restrict env1 (.ref m) v)))
           else Facts.unionHeaderLen + (enc v).length) = Facts.unionHeaderLen + (enc v).length := by
         cases safe
         · simp
@@ -819,7 +826,7 @@ theorem decMsgLoop_evo (env1 env2 : Env) (hE1 : EnvOk env1) (hx : Extends env1 e
       | n+1, hn =>
       have hwhole := h
       simp only [wtMsg] at h
-      obtain ⟨hlo, hi, ⟨fd2, hfd2, hwv⟩, hrest⟩ := h
+      obtain ⟨hlo, hi, ⟨fd2, hfd2, _, hwv⟩, hrest⟩ := h
       simp only [rankFields] at hf
       have h1 : rank v < f := by omega
       have h2 : rankFields fs < f := by omega
@@ -958,7 +965,7 @@ theorem restrictFields_id (env1 env2 : Env) (hx : Extends env2 env1) :
   | [], _, _, _, _, _ => by simp [restrictFields]
   | (i, v) :: fs, fds, fds2, lo, hd, h => by
       simp only [wtMsg] at h
-      obtain ⟨_, _, ⟨b, hb, hwv⟩, hrest⟩ := h
+      obtain ⟨_, _, ⟨b, hb, _, hwv⟩, hrest⟩ := h
       obtain ⟨a, ha, hty⟩ := (hd i).1 b hb
       rw [← hty] at hwv
       simp only [restrictFields, ha, restrict_id_of_known env1 env2 hx v a.ty hwv,
@@ -969,86 +976,74 @@ end
 theorem restrict_self (env : Env) (ty : Ty) (v : Val) (h : wt env ty v) : restrict env ty v = v :=
   restrict_id_of_known env env (Extends.refl env) v ty h
 
+/-- The reader's `Size()` of what it decodes never exceeds the bytes on the wire: restriction only drops
+    fields, and `Size()` only skips some. -/
+theorem gsize_restrict_le (env1 : Env) (v : Val) (ty : Ty) : gsize env1 ty (restrict env1 ty v) ≤ vsize v :=
+  Nat.le_trans (gsize_le_vsize env1 _ ty) (vsize_restrict_le env1 v ty)
+
 mutual
-/-- … and then the slice guard holds trivially. -/
-theorem stable_of_known (env1 env2 : Env) (hx : Extends env2 env1) :
-    (v : Val) → ∀ ty, wt env2 ty v → StructsStable env1 ty v
+/-- For a value of the reader's own schema the slice guard holds: nothing is dropped (`restrict_self`) and
+    no present field is deprecated (`wt`), so `Size()` is the length of the encoding.
+
+    (Before the model counted deprecated fields out of `Size()`, this was stated for any reader schema
+    `env1` that knows every field of the writer's, `Extends env2 env1`.  That is no longer true: a reader
+    that marks a field deprecated which the writer still sends has a smaller `Size()` than the wire —
+    see `C04_deprecated_nested_struct_counterexample`.) -/
+theorem stable_self (env : Env) : (v : Val) → ∀ ty, wt env ty v → StructsStable env ty v
   | .scalar _ _, _, _ => by simp [StructsStable]
   | .str _, _, _ => by simp [StructsStable]
   | .guid _, _, _ => by simp [StructsStable]
   | .arr vs, ty, h => by
       simp only [wt] at h
       obtain ⟨t, rfl, _, hw, _⟩ := h
-      simp only [StructsStable]; exact stableList_of_known env1 env2 hx vs t hw
+      simp only [StructsStable]; exact stableList_self env vs t hw
   | .map kvs, ty, h => by
       simp only [wt] at h
       obtain ⟨k, t, rfl, _, _, hw, _⟩ := h
-      simp only [StructsStable]; exact stableKVs_of_known env1 env2 hx kvs k t hw
+      simp only [StructsStable]; exact stableKVs_self env kvs k t hw
   | .struct fs, ty, h => by
-      have hid := restrict_id_of_known env1 env2 hx (.struct fs) ty h
+      have hid := restrict_self env ty (.struct fs) h
+      have hg := gsize_eq_vsize_of_wt env (.struct fs) ty h
       simp only [wt] at h
       obtain ⟨n, tys, rfl, hn, hw⟩ := h
-      obtain ⟨d1, hn1, hd⟩ := Extends.get_old env2 env1 hx n _ hn
-      cases d1 with
-      | struct t1 =>
-        simp only [DefExtends] at hd; subst hd
-        simp only [StructsStable, hid, hn1]
-        exact ⟨trivial, stableStruct_of_known env1 env2 hx fs tys hw⟩
-      | msg _ => simp [DefExtends] at hd
-      | union _ => simp [DefExtends] at hd
+      simp only [StructsStable, hid, hn]
+      exact ⟨hg, stableStruct_self env fs tys hw⟩
   | .msg fs, ty, h => by
       simp only [wt] at h
-      obtain ⟨n, fds2, rfl, hn, hw, _⟩ := h
-      obtain ⟨d1, hn1, hd⟩ := Extends.get_old env2 env1 hx n _ hn
-      cases d1 with
-      | struct _ => simp [DefExtends] at hd
-      | msg fds => simp only [StructsStable, hn1]; exact stableFields_of_known env1 env2 hx fs fds fds2 0 hd hw
-      | union _ => simp [DefExtends] at hd
+      obtain ⟨n, fds, rfl, hn, hw, _⟩ := h
+      simp only [StructsStable, hn]; exact stableFields_self env fs fds 0 hw
   | .union d v, ty, h => by
       simp only [wt] at h
       obtain ⟨n, brs, m, rfl, hn, _, hm, hw, _⟩ := h
-      obtain ⟨d1, hn1, hd⟩ := Extends.get_old env2 env1 hx n _ hn
-      cases d1 with
-      | struct _ => simp [DefExtends] at hd
-      | msg _ => simp [DefExtends] at hd
-      | union b1 =>
-        simp only [DefExtends] at hd; subst hd
-        simp only [StructsStable, hn1, hm]; exact stable_of_known env1 env2 hx v (.ref m) hw
-theorem stableList_of_known (env1 env2 : Env) (hx : Extends env2 env1) :
-    (vs : List Val) → ∀ t, wtList env2 t vs → stableList env1 t vs
+      simp only [StructsStable, hn, hm]; exact stable_self env v (.ref m) hw
+theorem stableList_self (env : Env) : (vs : List Val) → ∀ t, wtList env t vs → stableList env t vs
   | [], _, _ => by simp [stableList]
   | v :: vs, t, h => by
       simp only [wtList] at h
-      exact ⟨stable_of_known env1 env2 hx v t h.1, stableList_of_known env1 env2 hx vs t h.2⟩
-theorem stableKVs_of_known (env1 env2 : Env) (hx : Extends env2 env1) :
-    (kvs : List (Val × Val)) → ∀ k t, wtKVs env2 k t kvs → stableKVs env1 t kvs
+      exact ⟨stable_self env v t h.1, stableList_self env vs t h.2⟩
+theorem stableKVs_self (env : Env) : (kvs : List (Val × Val)) → ∀ k t, wtKVs env k t kvs → stableKVs env t kvs
   | [], _, _, _ => by simp [stableKVs]
   | (a, b) :: kvs, k, t, h => by
       simp only [wtKVs] at h
-      exact ⟨stable_of_known env1 env2 hx b t h.2.1, stableKVs_of_known env1 env2 hx kvs k t h.2.2⟩
-theorem stableStruct_of_known (env1 env2 : Env) (hx : Extends env2 env1) :
-    (vs : List Val) → ∀ tys, wtStruct env2 tys vs → stableStruct env1 tys vs
+      exact ⟨stable_self env b t h.2.1, stableKVs_self env kvs k t h.2.2⟩
+theorem stableStruct_self (env : Env) : (vs : List Val) → ∀ tys, wtStruct env tys vs → stableStruct env tys vs
   | [], tys, _ => by cases tys <;> simp [stableStruct]
   | v :: vs, [], h => by simp [wtStruct] at h
   | v :: vs, t :: tys, h => by
       simp only [wtStruct] at h
-      exact ⟨stable_of_known env1 env2 hx v t h.1, stableStruct_of_known env1 env2 hx vs tys h.2⟩
-theorem stableFields_of_known (env1 env2 : Env) (hx : Extends env2 env1) :
-    (fs : List (Nat × Val)) → ∀ (fds fds2 : List MsgField) (lo : Nat), DefExtends (.msg fds2) (.msg fds) →
-      wtMsg env2 fds2 lo fs → stableFields env1 fds fs
-  | [], _, _, _, _, _ => by simp [stableFields]
-  | (i, v) :: fs, fds, fds2, lo, hd, h => by
+      exact ⟨stable_self env v t h.1, stableStruct_self env vs tys h.2⟩
+theorem stableFields_self (env : Env) :
+    (fs : List (Nat × Val)) → ∀ (fds : List MsgField) (lo : Nat), wtMsg env fds lo fs → stableFields env fds fs
+  | [], _, _, _ => by simp [stableFields]
+  | (i, v) :: fs, fds, lo, h => by
       simp only [wtMsg] at h
-      obtain ⟨_, _, ⟨b, hb, hwv⟩, hrest⟩ := h
-      obtain ⟨a, ha, hty⟩ := (hd i).1 b hb
-      rw [← hty] at hwv
+      obtain ⟨_, _, ⟨a, ha, _, hwv⟩, hrest⟩ := h
       simp only [stableFields, ha]
-      exact ⟨stable_of_known env1 env2 hx v a.ty hwv, stableFields_of_known env1 env2 hx fs fds fds2 i hd hrest⟩
+      exact ⟨stable_self env v a.ty hwv, stableFields_self env fs fds i hrest⟩
 end
 
-theorem topStable_of_known (env1 env2 : Env) (hx : Extends env2 env1) (n : Nat) (v : Val) (h : wt env2 (.ref n) v) :
-    TopStable env1 n v := by
-  have hs := stable_of_known env1 env2 hx v (.ref n) h
+theorem topStable_self (env : Env) (n : Nat) (v : Val) (h : wt env (.ref n) v) : TopStable env n v := by
+  have hs := stable_self env v (.ref n) h
   cases v with
   | struct fs =>
     simp only [StructsStable] at hs
